@@ -17,43 +17,46 @@ Inductive cls :=
 | ParallelOnly    (* parallel engine only; the property is about the serial engine *)
 | TestSupport.    (* helper packages used by tests only *)
 
-(** key = kind|package|function|expression|occurrence *)
+(** key = kind|package|function|expression|occurrence|shape, where the shape of a map range is
+    computed syntactically by the translator: collect-sort (body only appends the key, the
+    slice is sorted afterwards in the same function), collect-nosort, loop.  Every SortKeys
+    entry has shape collect-sort, except OpenTraceSource/rootSet whose slice is sorted by the
+    callee sourcefs.NewSource.  Removing a sort changes the key, hence breaks the obligation. *)
 Definition registry : list (string * cls) := [
-  ("maprange|mem|Storage.SaveCheckpoint|s.data|0", SortKeys);
-  ("maprange|mem/vm|pageTableImpl.ReverseLookup|pt.tables|0", SortKeys);
-  ("maprange|mem/vm|pageTableImpl.SaveCheckpoint|pt.tables|0", SortKeys);
-  ("maprange|messaging|PortOwnerBase.Ports|po.ports|0", SortKeys);
-  ("maprange|messaging|PortOwnerBase.GetPortByName|po.ports|0", Existential);
-  ("maprange|simulation|Simulation.checkpointCoverage|payloads|0", Existential);
-  ("maprange|simulation|Simulation.checkpointCoverage|rebuilt|0", Existential);
-  ("maprange|simulation|recordSourceArchives|explicitFSes|0", SortKeys);
-  ("maprange|sourcefs|WriteArchive|files|0", SortKeys);
-  ("maprange|sourcefs|OpenTraceSource|files|0", MapToMap);
-  ("maprange|sourcefs|OpenTraceSource|rootSet|0", SortKeys);
-  ("maprange|datarecording|sqliteWriter.flushLocked|t.tables|0", SortKeys);
-  ("maprange|datarecording|sqliteWriter.sortedTableNames|t.tables|0", SortKeys);
-  ("maprange|datarecording|sqliteReader.ListTables|r.typeMap|0", SortKeys);
-  ("maprange|datarecording|sqliteWriter.buildIndexes|t.tables|0", Commutative);
-  ("maprange|internal/codec|Registry.Tags|r.types|0", TestSupport);
-  ("maprange|mem/datamover|ctrlMiddleware.endInflightTasks|trans.PendingRead|0", Commutative);
-  ("maprange|mem/datamover|ctrlMiddleware.endInflightTasks|trans.PendingWrite|0", Commutative);
-  ("maprange|mem/vm/gmmu|ctrlMiddleware.endInflightTasks|m.comp.State.RemoteMemReqs|0", Commutative);
-  ("maprange|mem/vm/mmuCache|ctrlMiddleware.endInflightTasks|m.comp.State.InflightReqs|0", Commutative);
-  ("maprange|tracing|DBTracer.StartTracing|t.tracingTasks|0", Commutative);
-  ("maprange|tracing/tracingtest|LeakRecorder.OpenTasks|r.open|0", TestSupport);
-  ("maprange|daisen2/internal/httpapi|DBActivityTracker.Snapshot|t.active|0", OutsideSim);
-  ("maprange|daisen2/internal/httpapi|SQLiteTraceReader.CollectDBInfo|tableIndexes|0", OutsideSim);
-  ("maprange|daisen2/internal/httpapi|accumulateBins|keySet|0", OutsideSim);
-  ("go|daisen2/cmd/daisen2|main|func-literal|0", OutsideSim);
-  ("go|daisen2/internal/httpapi|SQLiteTraceReader.dbInfoGet|func-literal|0", OutsideSim);
-  ("go|monitoring2|Monitor.StartServer|func-literal|0", OutsideSim);
-  ("go|monitoring2|Monitor.run|func-literal|0", OutsideSim);
-  ("go|timing|ParallelEngine.runEventWithTempWorker|e.tempWorkerRun|0", ParallelOnly);
-  ("select|daisen2/internal/httpapi|Server.newCaptureRequester|select|0", OutsideSim);
-  ("wallclock|daisen2/internal/httpapi|DBActivityTracker.Begin|time.Now|0", OutsideSim);
-  ("wallclock|daisen2/internal/httpapi|DBActivityTracker.Snapshot|time.Now|0", OutsideSim);
-  ("wallclock|simulation|metaRecorder.End|time.Now|0", OutsideSim);
-  ("wallclock|simulation|metaRecorder.Start|time.Now|0", OutsideSim)
+  ("maprange|mem|Storage.SaveCheckpoint|s.data|0|collect-sort", SortKeys);
+  ("maprange|mem/vm|pageTableImpl.ReverseLookup|pt.tables|0|collect-sort", SortKeys);
+  ("maprange|mem/vm|pageTableImpl.SaveCheckpoint|pt.tables|0|collect-sort", SortKeys);
+  ("maprange|messaging|PortOwnerBase.Ports|po.ports|0|collect-sort", SortKeys);
+  ("maprange|messaging|PortOwnerBase.GetPortByName|po.ports|0|loop", Existential);
+  ("maprange|simulation|Simulation.checkpointCoverage|payloads|0|loop", Existential);
+  ("maprange|simulation|Simulation.checkpointCoverage|rebuilt|0|loop", Existential);
+  ("maprange|simulation|recordSourceArchives|explicitFSes|0|collect-sort", SortKeys);
+  ("maprange|sourcefs|WriteArchive|files|0|collect-sort", SortKeys);
+  ("maprange|sourcefs|OpenTraceSource|files|0|loop", MapToMap);
+  ("maprange|sourcefs|OpenTraceSource|rootSet|0|collect-nosort", SortKeys);
+  ("maprange|datarecording|sqliteWriter.sortedTableNames|t.tables|0|collect-sort", SortKeys);
+  ("maprange|datarecording|sqliteReader.ListTables|r.typeMap|0|collect-sort", SortKeys);
+  ("maprange|datarecording|sqliteWriter.buildIndexes|t.tables|0|loop", Commutative);
+  ("maprange|internal/codec|Registry.Tags|r.types|0|collect-nosort", TestSupport);
+  ("maprange|mem/datamover|ctrlMiddleware.endInflightTasks|trans.PendingRead|0|loop", Commutative);
+  ("maprange|mem/datamover|ctrlMiddleware.endInflightTasks|trans.PendingWrite|0|loop", Commutative);
+  ("maprange|mem/vm/gmmu|ctrlMiddleware.endInflightTasks|m.comp.State.RemoteMemReqs|0|loop", Commutative);
+  ("maprange|mem/vm/mmuCache|ctrlMiddleware.endInflightTasks|m.comp.State.InflightReqs|0|loop", Commutative);
+  ("maprange|tracing|DBTracer.StartTracing|t.tracingTasks|0|loop", Commutative);
+  ("maprange|tracing/tracingtest|LeakRecorder.OpenTasks|r.open|0|loop", TestSupport);
+  ("maprange|daisen2/internal/httpapi|DBActivityTracker.Snapshot|t.active|0|loop", OutsideSim);
+  ("maprange|daisen2/internal/httpapi|SQLiteTraceReader.CollectDBInfo|tableIndexes|0|collect-sort", OutsideSim);
+  ("maprange|daisen2/internal/httpapi|accumulateBins|keySet|0|collect-sort", OutsideSim);
+  ("go|daisen2/cmd/daisen2|main|func-literal|0|", OutsideSim);
+  ("go|daisen2/internal/httpapi|SQLiteTraceReader.dbInfoGet|func-literal|0|", OutsideSim);
+  ("go|monitoring2|Monitor.StartServer|func-literal|0|", OutsideSim);
+  ("go|monitoring2|Monitor.run|func-literal|0|", OutsideSim);
+  ("go|timing|ParallelEngine.runEventWithTempWorker|e.tempWorkerRun|0|", ParallelOnly);
+  ("select|daisen2/internal/httpapi|Server.newCaptureRequester|select|0|", OutsideSim);
+  ("wallclock|daisen2/internal/httpapi|DBActivityTracker.Begin|time.Now|0|", OutsideSim);
+  ("wallclock|daisen2/internal/httpapi|DBActivityTracker.Snapshot|time.Now|0|", OutsideSim);
+  ("wallclock|simulation|metaRecorder.End|time.Now|0|", OutsideSim);
+  ("wallclock|simulation|metaRecorder.Start|time.Now|0|", OutsideSim)
 ].
 
 Definition registered (k : string) : bool :=
